@@ -92,6 +92,10 @@ def texts(w, seed=0, name=""):
         ("punct", "p.,;:-_/()"[:w], "l"),
         ("quotes", "q\"'="[:w], "l"),
         ("lower", "mixedCase"[:w], "l"),
+        ("E", "E", "l"),
+        ("A", "A", "l"),
+        ("EB", "EB"[:w], "l"),
+        ("e", "e", "l"),
         # texts that look like values of another type: a free-text field must surface them unchanged
         ("datetime16", "2014082913370512", "l"),
         ("datetime17", "20140829133705123", "l"),
@@ -169,6 +173,8 @@ def spare_contents(f):
         return [(f"text{i}", (p * w)[:w].encode()) for i, p in enumerate(pats)]
     if kind in "IF":
         cands = [("zero", "0", "r"), ("num", "-1.5E+03" if kind == "F" else "-15", "r"), ("digits", "9" * w, "r"), ("left", "7", "l")]
+        if kind == "F":  # numbers outside the range of a double are still numbers
+            cands += [("huge", "3.1415927E+310", "r"), ("huge-neg", "-9E999", "r"), ("tiny", "1E-400", "r")]
         return _fit(cands, w)
     if kind in ("X", "B"):
         return [("nul", b"\x00" * w), ("ff", b"\xff" * w), ("space", b" " * w), ("counter", bytes((i * 7 + 1) % 256 for i in range(w)))]
